@@ -326,7 +326,9 @@ MANIFEST_TEXT.update({
                "DESIGN.md §6 C15", "Lean 4 conservation law by induction over histories + differential correspondence of lifecycle events and socket ledger",
                "Partial: real goroutines/timers are observed via synctest only."),
     "C16": _mt("unbound_within_deadline invariant, deadline_closes, bind_success_inv (owner only, stream only, not bound before), bind_once, bind_reject_harmless, dupe_446, "
-               "connect_fresh_id, peerconn_fresh_id, conn_id_unique (global invariant: one id names one connection per listener), pipe_identity; tied by TCP-relay histories (Connect / inbound connections / ConnectionBind right and wrong / pipes / closes / 29-31 s steps) replayed through the model. "
+               "connect_fresh_id, peerconn_fresh_id, conn_id_unique (global invariant: one id names one connection per listener), pipe_identity, tcp_allocation_over_stream_only, "
+               "bind_vs_deadline / bind_xor_deadline (C16Timer: over ALL interleavings of the bind timer and a ConnectionBind at the manager's mutex a granted bind is never undone; the proviso "
+               "'the callback decides under the lock' is a fact regenerated from the source); tied by TCP-relay histories (Connect / inbound connections / ConnectionBind right and wrong / pipes / closes / 29-31 s steps) replayed through the model. "
                "PARTIAL: io.Copy and TCP are the runtime's.",
                "DESIGN.md §6 C16", "Lean 4 invariants + decision theorems + differential correspondence on TCP-relay histories",
                "Partial: byte piping by io.Copy is observed, not proved."),
